@@ -249,6 +249,7 @@ class Parser:
         self.toks, self.i, self.where = toks, 0, where
         self.tparams = dict(tparams or {})          # template parameter name -> kind ('T', or 'int' when instantiated at index types)
         self.enums = enums or {}
+        self.allow_float = False
         self.ptr_elems = set()                      # element type names `E` such that `E*` is a pointer into the array's data
 
     # -- helpers
@@ -391,6 +392,8 @@ class Parser:
                 return ('int', int(txt))
             if re.fullmatch(r'0[xX][0-9a-fA-F]+', txt):
                 return ('int', int(txt, 16))
+            if self.allow_float:
+                return ('float', t.text)
             raise self.err(f'floating-point literal {t.text} (outside the subset)')
         if t.kind == 'op' and t.text == '(':
             self.i += 1
@@ -720,8 +723,53 @@ class Translator:
             return '*' + self._path(e[1 + 1])
         return '?'
 
+    def trace_reads(self, e, env, ln, out):
+        """trace mode: the array reads of expression `e` in source order, as Lean terms of type `List (Int × Int)`"""
+        if not isinstance(e, tuple):
+            return
+        tr = self.spec.get('trace') or {}
+        if e[0] == 'mcall' and self._path(e[1]) + '.' + e[2] + '()' in (tr.get('reads') or []):
+            for a in e[3]:
+                self.trace_reads(a, env, ln, out)
+            ix = [self.coerce(self.expr(a, env, ln), 'int', ln) for a in e[3]]
+            out.append('[(' + ', '.join(ix) + ')]')
+            return
+        if e[0] == 'call' and e[1].split('::')[-1] in self.known and self.known[e[1].split('::')[-1]].get('trace'):
+            f = self.known[e[1].split('::')[-1]]
+            args = e[3]
+            if len(args) != len(f['params']) or args[0] != ('var', tr.get('array')):
+                raise self.err(ln, f'call of {e[1]}: the array argument must be passed through unchanged')
+            for a in args[1:]:
+                self.trace_reads(a, env, ln, out)
+            outs = [self.atom(self.coerce(self.expr(a, env, ln), 'int', ln)) for a in args[1:]]
+            self.calls.add(e[1].split('::')[-1])
+            out.append(f'({f["lean"]} {tr["dims"]} {" ".join(outs)})')
+            return
+        for x in e[1:]:
+            if isinstance(x, tuple):
+                self.trace_reads(x, env, ln, out)
+            elif isinstance(x, list):
+                for y in x:
+                    self.trace_reads(y, env, ln, out)
+
+    def trace_pre(self, exprs, env, ln, pad):
+        if not self.spec.get('trace'):
+            return ''
+        out = []
+        for e in exprs:
+            self.trace_reads(e, env, ln, out)
+        return ''.join(f'{pad}let acc_ : List (Int × Int) := acc_ ++ {t}\n' for t in out)
+
     def expr(self, e, env, ln):
         k = e[0]
+        tr = self.spec.get('trace')
+        if tr:
+            if k == 'float':
+                return ('()', 'elem')
+            if k == 'mcall' and self._path(e[1]) + '.' + e[2] + '()' in (tr.get('reads') or []):
+                return ('()', 'elem')
+            if k == 'call' and e[1].split('::')[-1] in self.known and self.known[e[1].split('::')[-1]].get('trace'):
+                return ('()', 'elem')
         if k == 'int':
             return (str(e[1]), 'int')
         if k == 'boollit':
@@ -803,6 +851,8 @@ class Translator:
                 return (f'({a[0]} {lop} {b[0]})', 'prop')
             if op in ('+', '-', '*', '/', '%'):
                 kind = self.arith_kind(a, b, ln)
+                if kind == 'elem':
+                    return ('()', 'elem')          # trace mode: element values are opaque
                 x = a[0] if a[1] != 'prop' else self.coerce(a, 'int', ln)
                 y = b[0] if b[1] != 'prop' else self.coerce(b, 'int', ln)
                 if kind == 'ptr' and op not in ('+', '-'):
@@ -893,6 +943,8 @@ class Translator:
 
     def arith_kind(self, a, b, ln):
         ks = {a[1], b[1]}
+        if 'elem' in ks and ks <= {'elem', 'int'}:
+            return 'elem'
         if ks <= {'int', 'prop'}:
             return 'int'
         if a[1] == 'ptr' and b[1] == 'int':
@@ -986,6 +1038,10 @@ class Translator:
                 raise self.err(ln, '`return` inside a loop body (outside the subset)')
             if s[1] is None:
                 raise self.err(ln, '`return;` without a value')
+            if self.spec.get('trace'):
+                if self.expr(s[1], env, ln)[1] != 'elem':
+                    raise self.err(ln, 'trace mode: the function must return an element value')
+                return self.trace_pre([s[1]], env, ln, pad) + pad + 'acc_'
             return pad + self.ret(s[1], env, ln)
         if kind == 'decl':
             out = []
@@ -993,14 +1049,24 @@ class Translator:
             for v, init in s[2]:
                 if v in env:
                     raise self.err(ln, f'declaration of `{v}` shadows a variable of an enclosing scope (outside the subset)')
+                pre = self.trace_pre([init], env, ln, pad)
+                if pre:
+                    out.append(pre.rstrip('\n'))
+                if s[1] == 'elem':
+                    if self.expr(init, env, ln)[1] not in ('elem', 'int'):
+                        raise self.err(ln, 'initialiser of an element value')
+                    env[v] = 'elem'
+                    continue
                 kd = 'bool' if s[1] == 'bool' and not self.spec.get('bool_as_T') else ('T' if s[1] == 'bool' else s[1])
                 if kd == 'elem':
                     raise self.err(ln, 'declaration of an array element value (outside the subset)')
                 val = self.coerce(self.expr(init, env, ln), kd, ln)
                 env[v] = kd
                 out.append(f'{pad}let {lname(v)} : {self.lean_type(kd)} := {val}')
-            return '\n'.join(out) + '\n' + k(env, ind)
+            return ('\n'.join(out) + '\n' if out else '') + k(env, ind)
         if kind == 'assign':
+            if self.trace_pre([s[3]], env, ln, pad):
+                raise self.err(ln, 'trace mode: array read in an assignment (outside the subset)')
             v = self.lvalue(s[2], env, ln)
             kd = env[v]
             rhs = s[3]
@@ -1009,6 +1075,8 @@ class Translator:
             val = self.coerce(self.expr(rhs, env, ln), kd, ln)
             return f'{pad}let {lname(v)} : {self.lean_type(kd)} := {val}\n' + k(env, ind)
         if kind == 'if':
+            if self.trace_pre([s[1]], env, ln, pad):
+                raise self.err(ln, 'trace mode: array read in a condition (outside the subset)')
             c = self.coerce(self.expr(s[1], env, ln), 'prop', ln)
             a = [s[2]]
             b = [s[3]] if s[3] is not None else []
@@ -1303,6 +1371,28 @@ TARGETS = [
          ret_kind='int',
          accessors={'pos.position_[]': ('pos', 'int'), 'dim()': ('dims', 'int'), 'ndims()': ('(dims.length : Int)', 'int')},
          doc='`dim(d)` reads the list `dims`, `pos.position_[d]` the list `pos`; the `int` result is unbounded (no index overflow)'),
+    dict(key='sum_rect', file='mahotas/features/_surf.cpp', func='sum_rect', pick='generic', lean='sum_rect', tparams=['T'],
+         params=[], extra_params=[('dims', 'list'), ('y0', 'int'), ('x0', 'int'), ('y1', 'int'), ('x1', 'int')],
+         raw_params=True, c_param_names=['integral', 'y0', 'x0', 'y1', 'x1'], env_params=['y0', 'x0', 'y1', 'x1'],
+         ret_kind='int', trace=dict(array='integral', dims='dims', reads=['integral.at()']),
+         accessors={'integral.dim()': ('dims', 'int')},
+         doc='TRACE translation: the value is the list of the `(row, column)` pairs `integral.at(r, c)` reads, in source order '
+             '(element values are opaque); `integral.dim(k)` reads the list `dims`; `int` arithmetic is unbounded'),
+    dict(key='csum_rect', file='mahotas/features/_surf.cpp', func='csum_rect', pick='generic', lean='csum_rect', tparams=['T'],
+         params=[], extra_params=[('dims', 'list'), ('y', 'int'), ('x', 'int'), ('dy', 'int'), ('dx', 'int'), ('h', 'int'), ('w', 'int')],
+         raw_params=True, c_param_names=['integral', 'y', 'x', 'dy', 'dx', 'h', 'w'], env_params=['y', 'x', 'dy', 'dx', 'h', 'w'],
+         ret_kind='int', trace=dict(array='integral', dims='dims', reads=['integral.at()']),
+         doc='TRACE translation (see `sum_rect`)'),
+    dict(key='haar_x', file='mahotas/features/_surf.cpp', func='haar_x', pick='plain', lean='haar_x',
+         params=[], extra_params=[('dims', 'list'), ('y', 'int'), ('x', 'int'), ('w', 'int')],
+         raw_params=True, c_param_names=['integral', 'y', 'x', 'w'], env_params=['y', 'x', 'w'],
+         ret_kind='int', trace=dict(array='integral', dims='dims', reads=['integral.at()']),
+         doc='TRACE translation (see `sum_rect`)'),
+    dict(key='haar_y', file='mahotas/features/_surf.cpp', func='haar_y', pick='plain', lean='haar_y',
+         params=[], extra_params=[('dims', 'list'), ('y', 'int'), ('x', 'int'), ('w', 'int')],
+         raw_params=True, c_param_names=['integral', 'y', 'x', 'w'], env_params=['y', 'x', 'w'],
+         ret_kind='int', trace=dict(array='integral', dims='dims', reads=['integral.at()']),
+         doc='TRACE translation (see `sum_rect`)'),
 ]
 
 
@@ -1395,6 +1485,9 @@ def translate_target(repo: Path, tg, known) -> dict:
             raise TranslationError(f'{where}: parameters {got}, expected {exp}')
     pr = Parser(f.body_toks, where, tparams={**{n: 'T' for n in tparams}, **{n: 'int' for n in INT}}, enums=enums)
     pr.ptr_elems = set(tg.get('ptr_elems') or [])
+    if tg.get('trace'):
+        pr.allow_float = True
+        pr.tparams.update({n: 'elem' for n in list(tparams) + ['double', 'float']})
     if tg.get('select') == 'first-for-body':
         body = select_first_for(f, pr, where)
     else:
@@ -1406,6 +1499,8 @@ def translate_target(repo: Path, tg, known) -> dict:
     for n, kd in cfg:
         if kd != 'list':
             env[n] = kd
+    for n in tg.get('env_params', []):
+        env[n] = 'int'
     if tg.get('select') == 'first-for-body':
         res = tg['result']
         term = tr.stmts(body, env, lambda env2, ind2: '  ' * ind2 + lname(res), 1)
@@ -1413,6 +1508,8 @@ def translate_target(repo: Path, tg, known) -> dict:
         def fell(env2, ind2):
             raise TranslationError(f'{where}: control reaches the end of the function without `return`')
         term = tr.stmts(body, env, fell, 1)
+    if tg.get('trace'):
+        term = '  let acc_ : List (Int × Int) := []\n' + term
     binders = []
     if tr.uses_dt:
         binders.append('(dt : DT)')
@@ -1420,7 +1517,7 @@ def translate_target(repo: Path, tg, known) -> dict:
         binders.append(f'({lname(n)} : {"List Int" if kd == "list" else tr.lean_type(kd)})')
     for n, kd in tg.get('extra_params', []):
         binders.append(f'({lname(n)} : {"List Int" if kd == "list" else tr.lean_type(kd)})')
-    rty = 'Option Int' if tg.get('flag_const') else tr.lean_type(tg['ret_kind'])
+    rty = 'Option Int' if tg.get('flag_const') else ('List (Int × Int)' if tg.get('trace') else tr.lean_type(tg['ret_kind']))
     doc = [f'/-- `{tg["func"]}`{" (" + tg["pick"] + ")" if tg["pick"] != "plain" else ""} — {tg["file"]} lines {f.line0}–{f.line1}, '
            f'sha256 of the token text {f.hash}.']
     if tg.get('doc'):
@@ -1513,8 +1610,10 @@ def handle_block(entries) -> list[str]:
                 args.append(f'(x {si})')
                 si += 1
         call = f'{lean} {"dt " if uses_dt else ""}{" ".join(args)}'
-        if opt:
+        if opt == 'opt':
             s.append(f'  | "{lean}" => match {call} with | some v => s!"r={{v}}" | none => "r=u"')
+        elif opt == 'trace':
+            s.append(f'  | "{lean}" => "r=" ++ ";".intercalate (({call}).map fun p => s!"{{p.1}},{{p.2}}")')
         else:
             s.append(f'  | "{lean}" => s!"r={{{call}}}"')
     s += ['  | f => s!"error=unknown-fn-{f}"', '']
@@ -1543,8 +1642,8 @@ def generate(repo: Path, outdir: Path) -> dict:
         allp = list(tg['params']) + list(tg.get('extra_params', []))
         known[tg['func'] if tg['pick'] != 'full' else tg['key']] = dict(
             lean=tg['lean'], params=[kd for _, kd in allp], ret=tg['ret_kind'],
-            dt=('T-as-arg' if tg.get('template_call') else uses_dt))
-        entries.append((tg['lean'], [kd for _, kd in allp], uses_dt, bool(tg.get('flag_const'))))
+            dt=('T-as-arg' if tg.get('template_call') else uses_dt), trace=bool(tg.get('trace')))
+        entries.append((tg['lean'], [kd for _, kd in allp], uses_dt, 'opt' if tg.get('flag_const') else ('trace' if tg.get('trace') else '')))
         names[blk] = ['Mahotas.Generated.C.' + n for n in defined_names('\n'.join(lines))]
         s += [f'-- BEGIN block {blk}'] + list(lines) + [f'-- END block {blk}', '']
     s += handle_block(entries)
